@@ -237,6 +237,21 @@ def primitives(ctx, spec):
             ok = sized
         ctx.check(ok, R, "C09/primitives-shape/" + fn, b.loc,
                   reason="%s: expected one VarInt length then exactly that many bytes" % fn, detail="%s = varint length, then that many bytes" % fn)
+        # no bound tighter than the protocol's: a string may be 32767 UTF-16 units = up to 3*32767+3 bytes
+        tight = []
+        for blk in b.blocks:
+            if blk.cleanup or blk.term.kind != "switch" or b.is_noise(blk.term):
+                continue
+            e, ls = an.switch_info(blk.idx)
+            if e[0] == "binop" and e[1] in ("Gt", "Ge", "Lt", "Le"):
+                x, y = flow.strip(e[2]), flow.strip(e[3])
+                for u, v in ((x, y), (y, x)):
+                    if calls_in(u, "read_varint") and v[0] == "const" and isinstance(v[2], int) and 0 < v[2] < 3 * 32767 + 3:
+                        tight.append((e[1], v[2]))
+        ctx.check(not tight, R, "C09/primitives-shape/%s/no-tighter-limit" % fn, b.loc,
+                  reason="%s compares the byte-length prefix with %s: the protocol allows strings of up to 32767 characters, i.e. up to %d bytes, so valid values are rejected"
+                         % (fn, tight, 3 * 32767 + 3),
+                  detail="%s imposes no byte limit below the protocol's" % fn)
         if rd:
             ctx.check(len(calls(b, rd)) == 1, R, "C09/primitives-shape/%s/utf8" % fn, b.loc,
                       reason="%s does not validate UTF-8 with %s" % (fn, rd), detail="%s validates UTF-8 (error -> InvalidEncoding)" % fn)
